@@ -1,6 +1,21 @@
 // appended to src/runtime_scope.rs as `mod verif_kani` — C08 (depth), C01 (parameter/default indexing), C03 (capture resolution)
 use crate::runtime::RuntimeLimits;
 
+/// a scope with no cells and no parent, built directly (not through from_specs/from_template, whose declaration loop
+/// drags every factory closure of the crate into symex); natives are called in it with pre-evaluated arguments
+pub(crate) fn bare_scope<W: 'static, R: 'static, T: 'static>() -> RuntimeScope<'static, W, R, T> {
+    let template = Rc::new(RuntimeScopeTemplate {
+        id: 1,
+        cells: vec![],
+        declarations: vec![],
+        scope_parent_id: None,
+        param_count: 0,
+        defaults: vec![],
+        output: None,
+    });
+    RuntimeScope { cells: vec![], height: StackDepth(0), scope_parent: None, template }
+}
+
 fn tag_of(c: &EvaluationCell<P, P, P>) -> Option<i64> {
     match c {
         EvaluationCell::Value(Ok(v)) => match &v.value {
